@@ -76,6 +76,12 @@ theorem C09_huber_tie {K : Type} [Field K] [LinearOrder K] [IsStrictOrderedRing 
     (0 ≤ delta → ∀ a, 0 ≤ huber1 delta a) :=
   ⟨huber_branches_agree delta, huber1_at_delta delta, fun hd _ => huber1_nonneg hd⟩
 
+/-- the non-separable Huber norm, which the code evaluates through the squared norm
+    (`0.5·Σ|x|²` inside, `δ(√Σ|x|² − δ/2)` outside), is the Huber function of `‖x‖₂` -/
+theorem C09_huber_nonsep (cplx : Bool) (delta : ℝ) (x : Arg ℝ) :
+    huberNonsep cplx delta x = huber1 delta (l2 cplx x) :=
+  huberNonsep_eq cplx delta x
+
 example : huber1 (2 : ℚ) 2 = 2 := by norm_num [huber1, leR]
 example : huber1 (2 : ℚ) 3 = 4 := by norm_num [huber1, leR]
 
